@@ -368,6 +368,32 @@ func encProgram(consts []object.Object, main []byte, funcs map[string]environmen
 
 type traceLog struct {
 	calls []string
+	names []string
+	kept  [][]object.Object // the argument slices themselves, looked at again when the run is over
+}
+
+// final is the trace as seen after the run: a host function may keep the slice of arguments it
+// was given, and must still find the script's arguments there later.
+func (t *traceLog) final() string {
+	out := make([]string, len(t.calls))
+	for k, c := range t.calls {
+		out[k] = c
+		if k < len(t.kept) {
+			parts := make([]string, len(t.kept[k]))
+			for i, a := range t.kept[k] {
+				if a == nil {
+					parts[i] = "NIL"
+				} else {
+					parts[i] = encValue(a)
+				}
+			}
+			again := hx(t.names[k]) + "(" + strings.Join(parts, ",") + ")"
+			if again != c {
+				out[k] = c + "!kept-arguments-changed-to:" + again
+			}
+		}
+	}
+	return strings.Join(out, "+")
 }
 
 func (t *traceLog) hostFn(name, kind string) func(args []object.Object) object.Object {
@@ -377,6 +403,8 @@ func (t *traceLog) hostFn(name, kind string) func(args []object.Object) object.O
 			parts[i] = encValue(a)
 		}
 		t.calls = append(t.calls, hx(name)+"("+strings.Join(parts, ",")+")")
+		t.names = append(t.names, name)
+		t.kept = append(t.kept, args)
 		switch {
 		case kind == "arg0":
 			if len(args) > 0 {
@@ -583,7 +611,7 @@ func runHistory(c kv) string {
 			if idx < len(objs) {
 				obj = buildHost(objs[idx])
 			}
-			tl.calls = nil
+			tl.calls, tl.names, tl.kept = nil, nil, nil
 			crashed := false
 			printed := ""
 			var res string
@@ -620,7 +648,7 @@ func runHistory(c kv) string {
 				residue = 0
 			}
 			scopes = e.VerifEnvironment().VerifScopeDepth()
-			emit(fmt.Sprintf("%s|%s|%s|%d|%d|%s", res, strings.Join(tl.calls, "+"), encVars(e), scopes, residue, printed))
+			emit(fmt.Sprintf("%s|%s|%s|%d|%d|%s", res, tl.final(), encVars(e), scopes, residue, printed))
 		case "getvar":
 			emit("G|" + encValue(e.GetVariable(unhex(p[1]))))
 		case "dump":
